@@ -131,8 +131,14 @@ def length_sum(ctx, rule):
     trailer_len = None
     for o in exits:
         tup = agg_get(o.value, "0")
-        total = agg_get(tup, "2") if is_agg(tup) else None
-        bld = agg_get(tup, "0") if is_agg(tup) else None
+        # the pieces by what they are, not by position: a tuple (builder, part headers, total) or a private record of them
+        total = bld = None
+        if is_agg(tup):
+            for _n, x_ in tup[4]:
+                if isinstance(x_, tuple) and x_ and (x_[0] == "builder" or (x_[0] == "call" and x_[1].startswith("http::response::Builder::"))):
+                    bld = x_
+                elif isinstance(x_, tuple) and x_ and (TY.get(x_, (0,))[0] == 64 or (x_[0] == "binop" and x_[1] == "Add")):
+                    total = x_
         ok = False
         if isinstance(total, tuple) and total[0] == "binop" and total[1] == "Add":
             a, b = total[2], total[3]
@@ -304,6 +310,12 @@ def _is_lit(ev, text):
 
 # ------------------------------------------------------------------ stream
 
+def _int_newtype(ctx, ty):
+    a = ctx.facts.adts.get(ty.split("<")[0])
+    return bool(a) and a.get("local") and a["kind"] == "struct" and len(a["variants"][0]["fields"]) == 1 and \
+        a["variants"][0]["fields"][0]["ty"] == "usize" and a["variants"][0]["fields"][0]["name"] == "0"
+
+
 def _state_enum(ctx, ty):
     """a crate-local position enum: two variants carrying a part index, two without payload"""
     a = ctx.facts.adts.get(ty.split("<")[0])
@@ -343,6 +355,10 @@ def _find_stream(ctx):
             roles["cur"] = f["name"]
         elif t == "usize":
             roles["state"] = f["name"]
+        elif _int_newtype(ctx, t):
+            # the packed position wrapped in a private newtype (`struct State(usize)` with accessor methods)
+            roles["state"] = f["name"]
+            roles["state_wrap"] = t.split("<")[0]
         elif _state_enum(ctx, t) is not None:
             roles["state"] = f["name"]
             roles["state_adt"] = _state_enum(ctx, t)["path"]
@@ -356,7 +372,7 @@ def _find_stream(ctx):
             roles["entity"] = f["name"]
         elif t == "bool" or _two_unit_variants(ctx, t):
             phase.append(f)
-    if set(roles) - {"state_adt"} != {"cur", "state", "part_headers", "ranges", "remaining", "entity"}:
+    if set(roles) - {"state_adt", "state_wrap"} != {"cur", "state", "part_headers", "ranges", "remaining", "entity"}:
         raise FailClosed("multipart stream fields not recognised by type: %r" % roles)
     # position representation: one packed integer 2h+p, a part index h plus a two-valued phase field p, or an enum
     # {headers(h), body(h), trailer, end} (the variants' roles are read off what the step does in each of them)
@@ -468,7 +484,7 @@ def read_pos(ctx, o, roles):
                 return pack(N, const(1))
         return ("unknown_position", v)
     if roles["rep"] == "packed":
-        return final_read(ctx, o, SELF, (("f", roles["state"]),))
+        return final_read(ctx, o, SELF, (("f", roles["state"]),) + ((("f", "0"),) if "state_wrap" in roles else ()))
     part = final_read(ctx, o, SELF, (("f", roles["part"]),))
     ph = final_read(ctx, o, SELF, (("f", roles["phase"]),))
     v0, v1 = roles["phase_values"]
@@ -485,6 +501,8 @@ def pos_fields(roles, h, p):
         name = {0: vs["hdr"], 1: vs["body"], "T": vs["trailer"], "E": vs["end"]}[p]
         return ((roles["state"], agg("adt", roles["state_adt"], name, (("0", h),) if p in (0, 1) else ())),)
     if roles["rep"] == "packed":
+        if "state_wrap" in roles:
+            return ((roles["state"], agg("adt", roles["state_wrap"], None, (("0", pack(h, const(p))),))),)
         return ((roles["state"], pack(h, const(p))),)
     return ((roles["part"], h), (roles["phase"], roles["phase_values"][p]))
 
